@@ -72,3 +72,32 @@ Fixpoint value_of (j : jvalue) : lresult :=
   | JObj ms => object_of (map (fun kv => (fst kv, value_of (snd kv))) ms)
   | JInvalid => LOk LDynUnknown
   end.
+
+(* ---- property names are HCL strings ---------------------------------------------------
+   json/structure.go (expression.Value, case *objectVal) turns every property name into a
+   cty string BEFORE the duplicate check, in literal-only mode (ctx == nil) exactly as in
+   full-expression mode, and cty strings are compared after NFC normalisation.  Two names
+   that are different byte strings but the same HCL string (U+00E9 / U+0065 U+0301, U+212B /
+   U+00C5, a Hangul syllable / its conjoining jamo) therefore define the same attribute
+   twice: an error, like {"a":1,"a":2}.
+   [nf] is that normalisation.  It is a PARAMETER here (the Unicode tables belong to a
+   pinned dependency): the theorems of LiteralProofs.v hold for every nf, the checker
+   (JsonCheck.v) receives nf on the names of each case, computed independently of the code
+   under test.  value_of is value_of_nf at the identity (LiteralProofs.value_of_nf_id), and
+   an error of value_of is an error of value_of_nf for every nf (value_of_nf_error_mono). *)
+Definition object_of_nf (nf : list Z -> list Z) (rs : list (list Z * lresult)) : lresult :=
+  match collect_attrs rs with
+  | Some l => if has_dup (map nf (map fst l)) then LError else LOk (LObject l)
+  | None => LError
+  end.
+
+Fixpoint value_of_nf (nf : list Z -> list Z) (j : jvalue) : lresult :=
+  match j with
+  | JNull => LOk LNullDyn
+  | JBool b => LOk (LBool b)
+  | JNum m e => LOk (LNumber m e)
+  | JStr s => LOk (LString s)
+  | JArr vs => tuple_of (map (value_of_nf nf) vs)
+  | JObj ms => object_of_nf nf (map (fun kv => (fst kv, value_of_nf nf (snd kv))) ms)
+  | JInvalid => LOk LDynUnknown
+  end.
